@@ -10,9 +10,11 @@ HX double h_median(const double* x, int n) { arr_real a = mk_real(x, n); return 
 HX int h_medflt(const double* x, int nx, int order, double init, double* y) {
     H_TRY MedianFilter f(order, init); arr_real r = f.process(mk_real(x, nx)); put_real(r, y); return r.size(); H_END
 }
-HX int h_medflt2(const double* x, int n1, int n2, int order, double init, double* y) {   // two frames
-    H_TRY MedianFilter f(order, init); arr_real a = mk_real(x, n1), b = mk_real(x + n1, n2);
-    arr_real r1 = f(a); arr_real r2 = f(b); put_real(r1, y); put_real(r2, y + n1); return r1.size() + r2.size(); H_END
+HX int h_medflt2(const double* x, int n1, int n2, int order, double init, double* y) {   // frames n1, 1, rest (three calls when n2 >= 2)
+    H_TRY MedianFilter f(order, init); arr_real a = mk_real(x, n1); arr_real r1 = f(a); put_real(r1, y); int k = r1.size();
+    if (n2 >= 2) { arr_real r2 = f(mk_real(x + n1, 1)); put_real(r2, y + k); k += r2.size(); arr_real r3 = f(mk_real(x + n1 + 1, n2 - 1)); put_real(r3, y + k); k += r3.size(); }
+    else if (n2 == 1) { arr_real r2 = f(mk_real(x + n1, 1)); put_real(r2, y + k); k += r2.size(); }
+    return k; H_END
 }
 HX int h_medfilt(const double* x, int nx, int order, double* y) {
     H_TRY arr_real a = mk_real(x, nx); arr_real r = medfilt(a, order); put_real(r, y); return r.size(); H_END
